@@ -62,8 +62,8 @@ META = {
 }
 
 CFG = {
-    "quick": {"bfs_depth": 3, "edit_dist": 1, "behaviour_members": 6, "grammar": 2, "inner_dist": 1},
-    "thorough": {"bfs_depth": 3, "edit_dist": 3, "behaviour_members": 40, "grammar": 3, "inner_dist": 3},
+    "quick": {"bfs_depth": 3, "edit_dist": 1, "behaviour_members": 6, "grammar": 2, "inner_dist": 2},
+    "thorough": {"bfs_depth": 3, "edit_dist": 2, "behaviour_members": 24, "grammar": 3, "inner_dist": 3},
 }
 
 # ------------------------------------------------------------------------------------------------------------
@@ -268,7 +268,9 @@ def depth2(tier):
 
 
 def depth3():
-    out = wrap(wrap(depth1_small()))
+    out = []
+    for d in wrap(depth1_small()):
+        out += [G("list", d, style="t"), ("Opt", d), G("dict", L("str"), d, style="t"), U(d, L("bytes"))]
     tiny = depth1_tiny()
     for a in tiny[:8]:
         for b in tiny[:8]:
@@ -330,6 +332,34 @@ def collapsed(a, b):
     if a[0] != "ok" or b[0] != "ok":
         return False
     return (a[1] == b[1]) or (b[1] == a[1])
+
+
+def unordered_key(n):
+    """a normal form with the members of unions and literals as sets - used only to DESCRIBE how two unequal forms differ"""
+    if isinstance(n, NT.BaseNormType):
+        if isinstance(n, NT.NormTV):
+            return ("TV", n.origin)
+        if n.origin is typing.Union:
+            alts = set()
+            for a in n.args:
+                k = unordered_key(a)
+                alts |= k[1] if k[0] == "U" else {k}
+            return next(iter(alts)) if len(alts) == 1 else ("U", frozenset(alts))
+        if n.origin is typing.Literal:
+            return ("L", frozenset((type(a), a) for a in n.args))
+        return ("N", n.origin, tuple(unordered_key(a) for a in n.args))
+    if isinstance(n, tuple):
+        return tuple(unordered_key(a) for a in n)
+    return ("V", n)
+
+
+def how_differs(a, b):
+    if a[0] != "ok" or b[0] != "ok":
+        return "one raises"
+    try:
+        return "member order (up to de-duplication)" if unordered_key(a[1]) == unordered_key(b[1]) else "structure"
+    except TypeError:
+        return "structure"
 
 
 def show_norm(n):
@@ -528,8 +558,8 @@ def replay(case):  # noqa: C901, PLR0911, PLR0912
         return bad[0][2] if bad else None
     if kind == "behaviour":
         ba, bb = behaviour(build_cold(a)), behaviour(build_cold(b))
-        diffs = behaviour_diffs(ba, bb, R.meaning(a))
-        return diffs[0][1] if diffs else None
+        diffs = [d for d in behaviour_diffs(ba, bb, R.meaning(a)) if d[0] is not None]
+        return diffs[0][2] if diffs else None
     if kind == "predicate":
         probes = [build_cold(R.from_json(p)) for p in case["probes"]]
         va, vb = predicate_vector(build_cold(a), probes), predicate_vector(build_cold(b), probes)
@@ -540,23 +570,34 @@ def replay(case):  # noqa: C901, PLR0911, PLR0912
 
 
 def behaviour_diffs(b0, b1, m):
-    """-> [(leg, text)] for differences that the documentation does not leave open; skipped ones are returned with leg None"""
+    """-> [(leg, kind of difference, text)] for differences that the documentation does not leave open; the ones it does leave
+    open are returned with leg None"""
     out = []
     for leg, data in (("load", LOAD_DATA), ("dump", DUMP_VALUES)):
         x, y = b0[leg], b1[leg]
         if x == y:
             continue
-        if x[0] in ("no-loader", "no-dumper") or y[0] in ("no-loader", "no-dumper"):
-            out.append((leg, f"{leg}: one gives {x[:2]} the other {y[:2]}"))
+        missing_x, missing_y = x[0] in ("no-loader", "no-dumper"), y[0] in ("no-loader", "no-dumper")
+        if missing_x or missing_y:
+            kind = "cannot be produced for one of them" if missing_x != missing_y else "different creation error"
+            out.append((leg, kind, f"{leg}: the first gives {_brief(x)}, the second {_brief(y)}"))
             continue
         for d, ox, oy in zip(data, x, y):
             if ox == oy:
                 continue
-            if ox.startswith("ok:") and oy.startswith("ok:") and has_union_or_literal(m):
-                out.append((None, "both accept with different results inside a union / Literal (documented undefined)"))
+            both_ok = ox.startswith("ok:") and oy.startswith("ok:")
+            if both_ok and has_union_or_literal(m):
+                out.append((None, None, "both accept with different results inside a union / Literal (documented undefined)"))
                 continue
-            out.append((leg, f"{leg} of {rend(d)}: {ox} vs {oy}"))
+            kind = "different result" if both_ok else "accepted by one only" if ox[:2] != oy[:2] else "different error class"
+            out.append((leg, kind, f"{leg} of {rend(d)}: {ox} vs {oy}"))
     return out
+
+
+def _brief(x):
+    if x[0] in ("no-loader", "no-dumper"):
+        return f"{x[0]} ({x[1]})"
+    return f"a working one ({sum(1 for o in x if o.startswith('ok:'))} of {len(x)} data accepted)"
 
 
 # ------------------------------------------------------------------------------------------------------------
@@ -659,12 +700,16 @@ class ClassExplorer:
         self._path_cache[root] = None
         return None
 
-    def blame(self, s):
+    def blame(self, s, differs=None):
+        """the first rewrite on the path from s0 to s across which the observation changes"""
+        if differs is None:
+            def differs(a, b):
+                return not same(self.cold[a], self.cold[b])[0]
         root, path = self.path_from_root(s)
         sp = self.seed_path(root)
         full = (sp or []) + path
         for a, rule, b in full:
-            if not same(self.cold[a], self.cold[b])[0]:
+            if differs(a, b):
                 return rule, [r for _, r, _ in full]
         if sp is None:
             return "(two base hints of equal meaning, no rewrite path within the bound)", [r for _, r, _ in full]
@@ -735,8 +780,11 @@ class ClassExplorer:
         again = replay(case)
         if again is None:
             raise RuntimeError(f"non-deterministic verdict for {case}")
+        sig = {"check": f"C15.{kind}", "rewrite": rule, "cold": cold}
+        if kind == "equal":
+            sig["differs"] = how_differs(na, nb)
         self.report.violation(
-            {"check": f"C15.{kind}", "rewrite": rule, "cold": cold},
+            sig,
             f"{'cold' if cold else 'warm ' + order}: {R.render(self.s0)} -> {show_norm(na)}  BUT the equivalent hint "
             f"{R.render(s)} (rewrites {rules}) -> {show_norm(nb)}",
             case,
@@ -806,6 +854,12 @@ class ClassExplorer:
         sel = self.selected()
         s0 = self.s0
         b0 = behaviour(self.hints[s0])
+        beh = {s0: b0}
+
+        def beh_of(x):
+            if x not in beh:
+                beh[x] = behaviour(self.hints[x])
+            return beh[x]
         report.outcome("class loadable" if b0["load"][0] != "no-loader" else f"class without loader ({b0['load'][1]})")
         report.outcome("class dumpable" if b0["dump"][0] != "no-dumper" else f"class without dumper ({b0['dump'][1]})")
         for leg in ("load", "dump"):
@@ -815,16 +869,17 @@ class ClassExplorer:
         for s in sel:
             if s == s0:
                 continue
-            b = behaviour(self.hints[s])
-            report.case(("beh", R.render(s)), nontrivial=True)
+            b = beh_of(s)
+            report.case(None)
             report.count("behaviour_members_compared")
-            for leg, text in behaviour_diffs(b0, b, self.m0):
+            for leg, kind, text in behaviour_diffs(b0, b, self.m0):
                 if leg is None:
                     report.skip(SKIP_UNDEFINED)
                     continue
-                rule, rules = self.blame(s)
+                rule, rules = self.blame(
+                    s, lambda x, y, leg=leg: any(d[0] == leg for d in behaviour_diffs(beh_of(x), beh_of(y), self.m0)))
                 report.violation(
-                    {"check": "C15.behaviour", "rewrite": rule, "cold": True, "leg": leg},
+                    {"check": "C15.behaviour", "rewrite": rule, "cold": True, "leg": leg, "differs": kind},
                     f"{R.render(s0)} vs equivalent {R.render(s)} (rewrites {rules}): {text}",
                     {"kind": "behaviour", "a": R.to_json(s0), "b": R.to_json(s), "cold": True},
                 )
@@ -855,9 +910,18 @@ class ClassExplorer:
             if first is None:
                 groups[flag] = (s, vec)
             elif first[1] != vec:
-                rule, rules = self.blame(s)
+                pv = {}
+
+                def pred_of(x):
+                    if x not in pv:
+                        pv[x] = (bare_generic_flag(self.hints[x]), predicate_vector(self.hints[x], probes))
+                    return pv[x]
+
+                rule, rules = self.blame(s, lambda x, y: pred_of(x)[0] == pred_of(y)[0] and pred_of(x)[1] != pred_of(y)[1])
                 report.violation(
-                    {"check": "C15.behaviour", "rewrite": rule, "cold": True, "leg": "predicate"},
+                    {"check": "C15.behaviour", "rewrite": rule, "cold": True, "leg": "predicate",
+                     "differs": "matches different stacks" if first[1][0] != "no-predicate" and vec[0] != "no-predicate"
+                     else "cannot be produced for one of them"},
                     f"predicates built from {R.render(first[0])} and from the equivalent {R.render(s)} (rewrites {rules}) "
                     f"disagree on the stacks ending in {[R.render(p) for p, x, y in zip(probes_specs, first[1], vec) if x != y]}"
                     if first[1][0] != "no-predicate" and vec[0] != "no-predicate" else
@@ -879,13 +943,11 @@ def _bucket(n):
 
 
 def shard(args):
-    tier, classes = args
+    tier, seeds = args
     report = Report()
-    cfg = CFG[tier]
-    for seeds in classes:
-        ex = ClassExplorer(seeds, report, cfg)
-        ex.bfs()
-        ex.evaluate()
+    ex = ClassExplorer(seeds, report, CFG[tier])
+    ex.bfs()
+    ex.evaluate()
     return report
 
 
@@ -917,16 +979,9 @@ def run(tier):
     classes = partition(seeds)
     report.count("base_hints", len(seeds))
     report.count("meaning_classes", len(classes))
-    # longest-processing-time-first distribution over shards; cost grows steeply with the size of the hint
-    n_shards = max(1, env.ncpu() * 12)
-    weights = [sum(R.size(s) ** 3 for s in cl) for cl in classes]
-    idx = sorted(range(len(classes)), key=lambda i: -weights[i])
-    bins = [[0, []] for _ in range(n_shards)]
-    for i in idx:
-        b = min(bins, key=lambda x: x[0])
-        b[0] += weights[i]
-        b[1].append(classes[i])
-    shards = [(tier, b[1]) for b in sorted(bins, key=lambda x: -x[0]) if b[1]]
+    # one meaning class per shard, the expensive ones first (cost grows steeply with the number and size of the base hints)
+    classes.sort(key=lambda cl: -sum(R.size(s) ** 3 for s in cl))
+    shards = [(tier, cl) for cl in classes]
     parallel.run_shards(shard, shards, report=report)
     return report
 
